@@ -700,6 +700,19 @@ func runC10(c *Ctx) {
 		{"Signature value with empty signature", cose.Signature{Signature: []byte{}}},
 		{"Countersignature without signature", &cose.Countersignature{}},
 		{"Countersignature value without signature", cose.Countersignature{}},
+		// the same with retained raw header bytes, as a received object has them: a received message whose
+		// signatures (or payload) were removed afterwards is as unsigned as one under construction
+		{"decoded SignMessage, signatures removed (nil)", &cose.SignMessage{Headers: c10rawHeaders(), Payload: []byte("p")}},
+		{"decoded SignMessage, signatures removed (empty)", &cose.SignMessage{Headers: c10rawHeaders(), Payload: []byte("p"), Signatures: []*cose.Signature{}}},
+		{"decoded SignMessage value, signatures removed", cose.SignMessage{Headers: c10rawHeaders(), Payload: []byte("p")}},
+		{"decoded SignMessage, payload removed", &cose.SignMessage{Headers: c10rawHeaders(), Signatures: []*cose.Signature{{Signature: sigOK}}}},
+		{"decoded Sign1Message, signature removed (nil)", &cose.Sign1Message{Headers: c10rawHeaders(), Payload: []byte("p")}},
+		{"decoded Sign1Message, signature removed (empty)", &cose.Sign1Message{Headers: c10rawHeaders(), Payload: []byte("p"), Signature: []byte{}}},
+		{"decoded Sign1Message, payload removed", &cose.Sign1Message{Headers: c10rawHeaders(), Signature: sigOK}},
+		{"decoded Signature, signature removed (nil)", &cose.Signature{Headers: c10rawHeaders()}},
+		{"decoded Signature value, signature removed (empty)", cose.Signature{Headers: c10rawHeaders(), Signature: []byte{}}},
+		{"decoded Countersignature, signature removed (nil)", &cose.Countersignature{Headers: c10rawHeaders()}},
+		{"decoded Countersignature value, signature removed (empty)", cose.Countersignature{Headers: c10rawHeaders(), Signature: []byte{}}},
 		{"int parent", 42},
 		{"untyped nil parent", nil},
 		{"string parent", "parent"},
@@ -982,3 +995,13 @@ type c10embedsSignature struct{ cose.Signature }
 type c10embedsSignaturePtr struct{ *cose.Signature }
 type c10embedsCountersignature struct{ cose.Countersignature }
 type c10embedsCountersignaturePtr struct{ *cose.Countersignature }
+
+// c10rawHeaders are the headers of a received object: parsed maps together with the retained bytes.
+func c10rawHeaders() cose.Headers {
+	return cose.Headers{
+		RawProtected:   []byte{0x43, 0xa1, 0x01, 0x26},
+		Protected:      cose.ProtectedHeader{int64(1): cose.AlgorithmES256},
+		RawUnprotected: []byte{0xa1, 0x04, 0x41, 0x31},
+		Unprotected:    cose.UnprotectedHeader{int64(4): []byte("1")},
+	}
+}
